@@ -6,3 +6,4 @@ pub mod gdoc;
 pub mod shape;
 pub mod iofault;
 pub mod c06_model;
+pub mod usage;
